@@ -109,6 +109,50 @@ theorem ismags_find_exactly_one_rep {pick : Map → Cands → List Int → Int} 
   (oneRepPerClass_exactly_one g sg hs _
     (ismags_find_one_per_class hpick edgeNone g sg C hs hg hloop hvalid)).2 f hf
 
+/-- **`subgraph_is_isomorphic`** (transcription; symmetry off, or on with valid constraints) answers
+exactly "there is an induced subgraph isomorphism" (the reference `allIsos` is non-empty). -/
+theorem ismags_subgraph_is_isomorphic {pick : Map → Cands → List Int → Int} (hpick : PickOK pick) (edgeNone : Bool)
+    (g sg : Graph) (C : Constraints) (hs : sg.keys.Nodup) (hg : g.keys.Nodup) (hloop : noSelfLoops sg = true)
+    (hC : C = [] ∨ constraintsValidB sg C = true) :
+    subgraphIsIsomorphicWith pick edgeNone g sg C = !(allIsos g sg).isEmpty := by
+  unfold subgraphIsIsomorphicWith
+  have hiff : (findIsomorphismsWith pick edgeNone g sg C) = [] ↔ allIsos g sg = [] := by
+    constructor
+    · intro he
+      apply Classical.byContradiction
+      intro hne
+      obtain ⟨f, hf⟩ := List.exists_mem_of_ne_nil _ hne
+      have hcover : ∃ m ∈ (findIsomorphismsWith pick edgeNone g sg C).map (fun m => mapOf sg.keys (Map.toFun m)), True := by
+        rcases hC with rfl | hv
+        · exact ⟨f, (ismags_find_all hpick edgeNone g sg hs hg hloop).mem_iff.2 hf, trivial⟩
+        · have h1 := ismags_find_one_per_class hpick edgeNone g sg C hs hg hloop hv
+          obtain ⟨m, hm, _⟩ := ((oneRepPerClass_iff sg _ _).1 h1).2.2.2 f hf
+          exact ⟨m, hm, trivial⟩
+      obtain ⟨m, hm, _⟩ := hcover
+      rw [he] at hm
+      simp at hm
+    · intro he
+      apply Classical.byContradiction
+      intro hne
+      obtain ⟨m, hm⟩ := List.exists_mem_of_ne_nil _ hne
+      have := (ismags_find_sound hpick edgeNone g sg C hs m hm).2.2.1
+      rw [he] at this
+      simp at this
+  cases h1 : (findIsomorphismsWith pick edgeNone g sg C) with
+  | nil => rw [hiff.1 h1]
+  | cons a l =>
+    cases h2 : allIsos g sg with
+    | nil => rw [hiff.2 h2] at h1; cases h1
+    | cons b l' => rfl
+
+/-- **`is_isomorphic`**: the same and the node counts agree. -/
+theorem ismags_is_isomorphic {pick : Map → Cands → List Int → Int} (hpick : PickOK pick) (edgeNone : Bool)
+    (g sg : Graph) (C : Constraints) (hs : sg.keys.Nodup) (hg : g.keys.Nodup) (hloop : noSelfLoops sg = true)
+    (hC : C = [] ∨ constraintsValidB sg C = true) :
+    isIsomorphicWith pick edgeNone g sg C = (sg.keys.length == g.keys.length && !(allIsos g sg).isEmpty) := by
+  unfold isIsomorphicWith
+  rw [ismags_subgraph_is_isomorphic hpick edgeNone g sg C hs hg hloop hC]
+
 /-- the checker decides the declarative statement about the constraints -/
 theorem constraintsValid_spec (sg : Graph) (hs : sg.keys.Nodup) (C : Constraints) :
     constraintsValidB sg C = true ↔
